@@ -68,7 +68,7 @@ func showOp(p *uint32) string {
 	return fmt.Sprint(*p)
 }
 
-var envelopeCheck = &core.Check{Name: "c20/envelope", Quick: 1500, Thorough: 150000, Fn: func(c *core.Ctx) error {
+var envelopeCheck = &core.Check{Name: "c20/envelope", Quick: 1500, Thorough: 150000, Hang: caseHang, Fn: func(c *core.Ctx) error {
 	out := c.Bool("ext-out")
 	kinds := inKinds
 	if out {
